@@ -341,6 +341,13 @@ def _reaper_side(fi):
 
 
 def run(ctx):
+    # a lost worker is replaced unless the restart limiter says no: its window must be the real one (borrowed from C11)
+    from .c11 import r11_2 as _r11_2
+    from ..report import Only as _Only4
+    _r11_2(_Only4(ctx, ('step:',), floor=3, doc='the restart limiter counts restarts inside one real window'))
+    # a worker that leaves after finishing its work waits until its results were consumed, on every way out of the loop
+    from .c07 import r07_7 as _r07_7
+    _r07_7(_Only4(ctx, ('guard-on-every-exit',), floor=1, doc='every exit of the work loop passes the consumed-results wait'))
     r04_1(ctx, site=_reaper_side)
     r04_2(ctx)
     r04_3(ctx)
